@@ -60,8 +60,15 @@ func (v Verdict) String() string {
 func addrVerdict(addr string) Verdict {
 	switch {
 	case strings.HasPrefix(addr, "r5"):
+		if digitSum(addr)%2 == 1 {
+			// an SMTPError whose EnhancedCode the backend left unset: the server derives 5.0.0
+			return Verdict{Kind: vSMTP, Code: 550, Msg: "no such user " + sanitize(addr)}
+		}
 		return Verdict{Kind: vSMTP, Code: 550, Enh: [3]int{5, 1, 1}, Msg: "no such user " + sanitize(addr)}
 	case strings.HasPrefix(addr, "r4"):
+		if digitSum(addr)%2 == 1 {
+			return Verdict{Kind: vSMTP, Code: 451, Msg: "try later " + sanitize(addr)}
+		}
 		return Verdict{Kind: vSMTP, Code: 451, Enh: [3]int{4, 2, 1}, Msg: "try later " + sanitize(addr)}
 	case strings.HasPrefix(addr, "pe"):
 		return Verdict{Kind: vPlain, Msg: "backend failure for " + sanitize(addr)}
@@ -69,6 +76,21 @@ func addrVerdict(addr string) Verdict {
 		return Verdict{Kind: vPanic, Msg: "on " + sanitize(addr)}
 	}
 	return Verdict{}
+}
+
+// digitSum adds up the decimal digits of the local part: a cheap way to let the
+// address decide between two forms of the same verdict.
+func digitSum(addr string) int {
+	n := 0
+	for _, c := range addr {
+		if c == '@' {
+			break
+		}
+		if c >= '0' && c <= '9' {
+			n += int(c - '0')
+		}
+	}
+	return n
 }
 
 func sanitize(s string) string {
